@@ -194,3 +194,47 @@ def run(ctx):
     fcg = CallGraph(fx)
     als, _ = growth.alloc_sites(fx, fcg, ['Holder::ctl_alloc_lookup'])
     ctx.check(R1, len(als) >= 1, 'control-fixture', 'the allocation scan misses the fixture\'s allocating lookup: checker broken', kind='violation')
+    # the CLI's consumers of a stream (fst range / grep / fuzzy print what they are given, the union batch re-inserts it) hold one item at
+    # a time: a local buffer filled inside the draining loop must be emptied there under a test against a FIXED bound
+    b = ctx.bin
+    if b is not None:
+        R5 = ctx.rule('R14.5', 'fst-bin: loops that drain a stream do not accumulate its items', floor=1)
+        for g in b.fn_list:
+            if g.from_expansion:
+                continue
+            for h, body in g.loops().items():
+                cs = [(bid, t, (g.callee(t) or g.callee_decl(t) or '')) for bid, t in g.calls() if bid in body]
+                if not any(c.endswith("Streamer<'a>>::next") or c.endswith('Streamer::next') for _, _, c in cs):
+                    continue
+                grown = {}
+                for bid, t, c in cs:
+                    if SM.is_grow(c):
+                        l0 = arg_loc(g, t, 0)
+                        if l0 is not None and len(l0) == 1 and l0[0] > g.arg_count:
+                            grown.setdefault(l0, t)
+                if not grown:
+                    ctx.ok(R5, 'drain:%s@%s' % (g.path, h), None, g, None)
+                    continue
+                for l0, t in sorted(grown.items()):
+                    emptied = [c for bid, t2, c in cs if c.rsplit('::', 1)[-1] in ('clear', 'truncate', 'drain') and arg_loc(g, t2, 0) == l0] + \
+                        [c for bid, t2, c in cs if c.endswith('mem::take') or c.endswith('mem::replace')]
+                    capt = [c for bid, t2, c in cs if c.rsplit('::', 1)[-1] == 'capacity' and arg_loc(g, t2, 0) == l0]
+                    name = g.locals.get(l0[0], {}).get('name') or '_%d' % l0[0]
+                    if not emptied:
+                        ctx.violation(R5, 'accumulates:%s.%s' % (g.path, name), 'the loop draining a stream in %s appends to `%s` and never empties it: memory grows with the number of items streamed' % (g.path.rsplit('::', 1)[-1], name), fn=g, at=t.get('span'))
+                    elif capt:
+                        ctx.violation(R5, 'accumulates:%s.%s' % (g.path, name), 'the buffer `%s` filled by the draining loop of %s is emptied only when its length reaches ITS OWN capacity(), which grows with it: in effect it is never emptied and memory grows with the number of items streamed' % (name, g.path.rsplit('::', 1)[-1]), fn=g, at=t.get('span'))
+                    else:
+                        ctx.ok(R5, 'drain:%s@%s.%s' % (g.path, h, name), None, g, None)
+    # the convenience collectors are the ONE place where the library materialises a whole stream, at the caller's explicit request; library
+    # code that calls them on its own behalf (a Debug impl, a size estimate, a helper) holds every key of the set / map at once
+    R6 = ctx.rule('R14.6', 'the library itself never collects a stream: only the collector wrappers call the collectors', floor=3)
+    COLL = ('into_byte_vec', 'into_str_vec', 'into_byte_keys', 'into_str_keys', 'into_values', 'into_strs', 'into_bytes')
+    for g in lib.fn_list:
+        if g.from_expansion:
+            continue
+        for _, t in g.calls():
+            cal = g.callee(t) or ''
+            if cal.rsplit('::', 1)[-1] in COLL and 'Stream' in cal:
+                ctx.check(R6, g.path.rsplit('::', 1)[-1] in COLL and 'Stream' in g.path, 'collector-caller:' + g.path,
+                          '%s materialises a whole stream with %s: its memory grows with the number of keys (only the collectors themselves may do that, on the caller\'s request)' % (g.path, cal.rsplit('::', 1)[-1]), fn=g, at=t.get('span'))
